@@ -44,4 +44,25 @@ theorem tie_store_foreign_fanout {T : Type} (execs : List (Nat × Unit)) (sent :
       rw [← h]
     rw [h', ih, List.append_assoc]
 
+theorem fold_collect {T : Type} (g : Nat → Option T) (f : List T → Nat → List T)
+    (hsome : ∀ tv i t, g i = some t → f tv i = tv ++ [t]) (hnone : ∀ tv i, g i = none → f tv i = tv) (ids : List Nat) :
+    ∀ acc, List.foldl f acc ids = acc ++ ids.filterMap g := by
+  induction ids with
+  | nil => intro acc; simp
+  | cons i rest ih =>
+    intro acc
+    simp only [List.foldl_cons, List.filterMap_cons]
+    cases h : g i with
+    | none => rw [hnone acc i h]; exact ih acc
+    | some t => rw [hsome acc i t h, ih]; simp
+
+/-- **`owned_track_distances` collects its candidates from the store**: the stored track of every given id that is present, in
+the order of the ids (ids not in the store are skipped); the store itself is only read -/
+theorem tie_store_owned_candidates {T DB : Type} (shardOf : DB → Nat → List (Nat × T)) (db : DB) (ids : List Nat) :
+    store_owned_candidates shardOf db ids = ids.filterMap (fun i => mapGet (shardOf db i) i) := by
+  unfold store_owned_candidates
+  simp only []
+  rw [fold_collect (fun i => mapGet (shardOf db i) i) _ (fun tv i t h => by simp only [h]) (fun tv i h => by simp only [h]) ids []]
+  simp
+
 end SimVerif.Tie
